@@ -11,4 +11,15 @@ for p in $ids; do
   echo "$p rc=$rc known=$kf $line"
   if [ $rc -ne 0 ]; then fail=1; echo "$out" | grep -v "^KNOWN-FINDING" | head -8 | cut -c1-220; fi
 done
+python3-vt - <<'PY' || fail=1
+import json, jsonschema, glob, sys
+s=json.load(open('/root/.vp/EVIDENCE.schema.json'))
+bad=0
+for f in sorted(glob.glob('/verif/evidence/C??.json')):
+    try: jsonschema.validate(json.load(open(f)), s)
+    except Exception as e:
+        bad=1; print('EVIDENCE INVALID', f, str(e)[:200])
+print('evidence files valid' if not bad else 'evidence problems')
+sys.exit(bad)
+PY
 exit $fail
